@@ -66,7 +66,8 @@ def run_profile(ctx, profile, n_t, n_p, maxcoef, modes=("shipped",), line_checke
         rc, out, err, cases, impl, stats = E.generate(ctx, exe, profile, n_t, n_p, maxcoef, tag=mode)
         if rc != 0:
             ctx.tie_ok = False
-            ctx.violation({"harness_rc": rc, "stderr": err[-3000:], "mode": mode, "replay_cmd": "VERIF_SEED=%d python3 bin/check.py %s --tier %s" % (ctx.seed, ctx.prop, ctx.tier)},
+            tbl, lc = E.last_case(cases)
+            ctx.violation({"harness_rc": rc, "stderr": err[-3000:], "mode": mode, "last_table": tbl, "last_case_line": lc, "replay_cmd": "VERIF_SEED=%d python3 bin/check.py %s --tier %s" % (ctx.seed, ctx.prop, ctx.tier)},
                           "evaluation harness (%s build) %s rc=%d: %s" % (mode, "timed out" if rc == 124 else "aborted (sanitizer/assertion/crash)", rc, err[-500:]))
             continue
         model = cases + ".model"
